@@ -112,6 +112,10 @@ struct SimSource {
         if (octet_kind) octet_source_init(s, octet_cb, this);
         else chunk_source_init(s, chunk_cb, this);
     }
+    // the source-side getbuffer extension: the source lends a window of its own (exact-size block) to the plumbing
+    std::unique_ptr<uint8_t[]> lend_blk; size_t lend_win = 0;
+    static ByteBuffer lend_cb(Source *s) { SimSource *me = (SimSource *)s->driver; ByteBuffer b; b.data = me->lend_blk.get(); b.size = me->lend_win; b.used = me->lend_win; b.offset = 0; return b; }
+    void lend(Source *s, size_t window) { if (!window) return; lend_win = window; lend_blk.reset(new uint8_t[window]); memset(lend_blk.get(), 0xee, window); s->ext.getbuffer = lend_cb; }
     bool saw_error(int64_t e) const { for (auto x : errors) if (x == e) return true; return false; }
 };
 
